@@ -248,10 +248,11 @@ impl<'de> Visitor<'de> for ErrorKindVisitor {
             ErrorCode::UserSuspended => ErrorKind::UserSuspended,
             ErrorCode::WeakPassword => ErrorKind::WeakPassword,
             ErrorCode::WrongRoomKeysVersion => ErrorKind::WrongRoomKeysVersion {
-                current_version: from_json_value(
-                    current_version.ok_or_else(|| de::Error::missing_field("current_version"))?,
-                )
-                .map_err(de::Error::custom)?,
+                current_version: current_version
+                    .map(from_json_value)
+                    .transpose()
+                    .map_err(de::Error::custom)?
+                    .flatten(),
             },
             ErrorCode::_Custom(errcode) => ErrorKind::_Custom { errcode, extra },
         })
@@ -289,6 +290,17 @@ impl Serialize for ErrorKind {
             }
             Self::ResourceLimitExceeded { admin_contact } => {
                 st.serialize_entry("admin_contact", admin_contact)?;
+            }
+            Self::BadStatus { status, body } => {
+                if let Some(status) = status {
+                    st.serialize_entry("status", &status.as_u16())?;
+                }
+                if let Some(body) = body {
+                    st.serialize_entry("body", body)?;
+                }
+            }
+            Self::WrongRoomKeysVersion { current_version: Some(current_version) } => {
+                st.serialize_entry("current_version", current_version)?;
             }
             Self::_Custom { extra, .. } => {
                 for (k, v) in &extra.0 {
